@@ -131,6 +131,18 @@ def evaluate(trace):
     if snap_any(L) != sl or snap_any(R) != sr:
         add("C09/input-modified", "inner_join changed one of its inputs", "input")
     if exc is not None:
+        # a key column holding nothing but None has no kind of its own (it infers object?);
+        # the library's dtype-agreement check then refuses the pairing with a typed column.
+        # Whether such a column is "a str/bool/... key column" is not fixed by the statement.
+        degenerate = False
+        for c in range(len(meta["lpos"])):
+            lk = [r[meta["lpos"][c]] for r in lrows]
+            rk = [r[meta["rpos"][c]] for r in rrows]
+            if (lk and all(x is None for x in lk)) != (rk and all(x is None for x in rk)) or not lk or not rk:
+                if all(x is None for x in lk) or all(x is None for x in rk):
+                    degenerate = True
+        if degenerate and exc == "SerifTypeError":
+            return viols, "exc-degenerate:" + exc, ("degenerate",)
         first_none = any(r and r[0][j] is None for r, pos in ((lrows, meta["lpos"]), (rrows, meta["rpos"])) for j in pos)
         viols.append({"property": "C09", "clause": "C09/wrong-rows", "step": 0,
                       "detail": "inner_join raised %s (%s) on keys of kinds %s; the definition gives %d rows" % (exc, msg, meta["kkinds"], len(want)),
